@@ -325,6 +325,17 @@ def c25(ctx):
 
 
 
+C16_FEATURE_SETS = [
+    ("default(rayon,simd)", ["registry-default"]),
+    ("none", []),
+    ("deflate", ["deflate"]),
+    ("rle", ["rle"]),
+    ("jpeg", ["jpeg"]),
+    ("native,inventory-registry", ["native", "registry-default", "inventory"]),
+    ("native,deflate,jpegxl", ["native", "deflate", "jpegxl", "registry-default"]),
+]
+
+
 def c16_probe_manifest(ctx):
     """Manifest of the probe crate; for an alternative repository tree a redirected copy."""
     import shutil
